@@ -84,7 +84,7 @@ class RotationCorrection(darsia.BaseCorrection):
                     self.rotation = np.matmul(self.rotation, rotation.as_matrix())
                     rotation_inv = Rotation.from_rotvec(-degree * vector)
                     self.rotation_inv = np.matmul(
-                        self.rotation_inv, rotation_inv.as_matrix()
+                        rotation_inv.as_matrix(), self.rotation_inv
                     )
 
     def correct_array(self, img: np.ndarray) -> np.ndarray:
